@@ -24,6 +24,7 @@ from typing import Dict, List, TYPE_CHECKING
 from deep.api.tracepoint.tracepoint_config import MetricDefinition
 
 from deep.api.tracepoint.trigger import build_trigger
+from deep.task import IllegalStateException
 
 if TYPE_CHECKING:
     from deep.api.tracepoint.trigger import Trigger
@@ -96,7 +97,14 @@ class TracepointConfigService:
         self._last_update = ts
         self._current_hash = new_hash
         self._tracepoint_config = new_config
-        self.__trigger_update(old_hash, old_config)
+        try:
+            self.__trigger_update(old_hash, old_config)
+        except IllegalStateException:
+            # refused (we are shutting down): the listeners never hear of this config, so we must not go on reporting
+            # its hash - after a restart the service would answer 'no change' and the old config would stay for good
+            self._current_hash = old_hash
+            self._tracepoint_config = old_config
+            raise
 
     def __trigger_update(self, old_hash, old_config):
         ts = self._last_update
@@ -186,7 +194,14 @@ class TracepointConfigService:
         with self._update_lock:
             self._custom.append(config)
             self._custom_ids[tp_id] = config
-        self.__trigger_update(None, None)
+        try:
+            self.__trigger_update(None, None)
+        except IllegalStateException:
+            # refused (we are shut down): the caller gets no id, so nothing may be left that could become active later
+            with self._update_lock:
+                self._custom_ids.pop(tp_id, None)
+                self._custom = [cfg for cfg in self._custom if cfg is not config]
+            raise
         # the id of this tracepoint, not of its location: several tracepoints can be registered on the same line
         return tp_id
 
@@ -202,4 +217,11 @@ class TracepointConfigService:
                 # not known, or already removed
                 return
             self._custom = [cfg for cfg in self._custom if cfg is not config]
-        self.__trigger_update(None, None)
+        try:
+            self.__trigger_update(None, None)
+        except IllegalStateException:
+            # refused (we are shut down): the listeners still have it, so it stays registered and can be removed later
+            with self._update_lock:
+                self._custom_ids[_id] = config
+                self._custom.append(config)
+            raise
